@@ -611,7 +611,9 @@ impl ExecutableContent for SendParameters {
             return false;
         }
 
-        let target_guard = target.lock().unwrap();
+        // Work on a copy of the target: "typeexpr" and "eventexpr" may evaluate to the same value object
+        // (e.g. the same variable), which must not be locked twice.
+        let target_guard = target.lock().unwrap().clone();
         if delay_ms > 0 && target_guard.to_string().eq(SCXML_TARGET_INTERNAL) {
             // Can't send via internal queue
             error!("Send: illegal delay for target {}", target_guard);
